@@ -425,7 +425,20 @@ fn gen_req() -> Req {
             let a = t::string(b"abc xyz019", 0, 10);
             let b = t::pick(&["", "v", "line1\r\nline2", "caf\u{e9}"]);
             let boundary = t::pick(&["----WebKitFormBoundary7MA4YWxkTrZu0gW", "xyz", "a-b_c123"]);
-            match t::weighted(&[4, 1, 1]) {
+            match t::weighted(&[4, 1, 1, 1, 1]) {
+                3 => {
+                    // the boundary text in the middle of a line of a value is content, not a delimiter (a delimiter starts a
+                    // line); a parser may refuse such a body, but must not cut the value there
+                    let a2 = format!("see --{boundary} for {a}");
+                    mk("POST", "/multi".into(), Some(&format!("multipart/form-data; boundary={boundary}")), Some(multipart_body(boundary, &[("a", &a2), ("b", b)])), "grey", "multi", "multipart-boundary-text-inside-a-value", Some(json!({"m": MP { a: a2.clone(), b: b.to_string() }})))
+                }
+                4 => {
+                    // a delimiter that does not start a line (no CRLF in front of it): refusing is right; a lenient parser
+                    // that goes on must still deliver the whole value
+                    let a2 = format!("val{a}");
+                    let body = format!("--{boundary}\r\nContent-Disposition: form-data; name=\"a\"\r\n\r\n{a2}--{boundary}\r\nContent-Disposition: form-data; name=\"b\"\r\n\r\n{b}\r\n--{boundary}--\r\n").into_bytes();
+                    mk("POST", "/multi".into(), Some(&format!("multipart/form-data; boundary={boundary}")), Some(body), "grey", "multi", "multipart-delimiter-not-at-line-start", Some(json!({"m": MP { a: a2.clone(), b: b.to_string() }})))
+                }
                 0 => mk("POST", "/multi".into(), Some(&format!("multipart/form-data; boundary={boundary}")), Some(multipart_body(boundary, &[("a", &a), ("b", b)])), "valid", "multi", "multipart-body", Some(json!({"m": MP { a: a.clone(), b: b.to_string() }}))),
                 1 => mk("POST", "/multi".into(), Some(&format!("multipart/form-data; boundary={boundary}")), Some(multipart_body(boundary, &[("a", &a)])), "invalid", "multi", "multipart-missing-field", None),
                 _ => mk("POST", "/multi".into(), Some(t::pick(&["application/json", "multipart/", "multipart/form-dat", "multipart"])), Some(multipart_body(boundary, &[("a", &a), ("b", b)])), "invalid", "multi", "content-type-mismatch", None),
